@@ -287,6 +287,8 @@ def leg_ifaults(base_seed, index, opts):
     res = new_result()
     prof = opts['profile']
     scn = S.draw(base_seed, index, prof, salt=opts.get('salt', 'ifaults'))
+    if opts.get('mutate'):
+        opts['mutate'](scn)
     scn['ifaults'] = []
     cap = opts.get('ref_budget_cap', 60)
     eff = S.effective(scn)
